@@ -155,7 +155,7 @@ func (w *world) kstep(line string) bool {
 			panic("fake ipset: bad add line: " + line)
 		}
 		ks, ok := w.K[p[1]]
-		if !ok || ks.members[p[2]] {
+		if !ok || ks.members[p[2]] || !memberFits(ks.typ, p[2]) {
 			return false
 		}
 		ks.members[p[2]] = true
@@ -183,6 +183,38 @@ func (w *world) kstep(line string) bool {
 		return true
 	}
 	panic("fake ipset: unknown restore line: " + line)
+}
+
+// memberKind / memberFits: a real kernel rejects an element whose syntax does not fit the set type
+// (otherwise a later `ipset list` would print members that CanonicaliseMember cannot parse).
+func memberKind(m string) string {
+	allDigits := m != ""
+	for _, c := range m {
+		if c < '0' || c > '9' {
+			allDigits = false
+		}
+	}
+	switch {
+	case strings.Contains(m, ",") && strings.Contains(m, "/"):
+		return "hash:net,net"
+	case strings.Contains(m, ","):
+		return "hash:ip,port"
+	case strings.Contains(m, "/"):
+		return "hash:net"
+	case strings.Contains(m, "."):
+		return "hash:ip"
+	case allDigits:
+		return "bitmap:port"
+	}
+	return "raw"
+}
+
+func memberFits(typ, m string) bool {
+	switch typ {
+	case "hash:ip", "hash:ip,port", "hash:net", "bitmap:port", "hash:net,net":
+		return memberKind(m) == typ
+	}
+	return true
 }
 
 // lineOracle evaluates the per-line parts of the property on the real code's output:
